@@ -39,6 +39,9 @@ def cached(name, *args):
     """one model object per process and name: compiled closures are reused across paths
     (every path re-binds parameters / initial values before use)"""
     key = (name,) + args
+    from . import sym
+    if sym.CONCRETE_RUN:
+        return globals()[name](*args)   # replays / fidelity runs: a fresh object
     if key not in _CACHE:
         _CACHE[key] = globals()[name](*args)
     return _CACHE[key]
